@@ -95,6 +95,8 @@ def scenario_strategy(profile):
         sc = {"controls": controls, "limits": limits, "messages": msgs, "scripts": scripts,
               "bscript": draw(st.sampled_from(["", "", "D", "DD", "K", "DK", "ZD"])) if profile in ("C14", "C03") else "",
               "texts": texts, "tape": tape, "actions": actions, "mode": {"kind": "none"}}
+        if profile == "C15" and "term" in actions and draw(st.integers(0, 2)) == 0:
+            sc["term_max"] = 2           # two clean stops in one history
         return sc
     return build()
 
